@@ -2207,13 +2207,16 @@ fn do_render_node<T: Write, D: TextDecorator>(
             })
         }
         Header(level, children) => {
+            // The size estimate was made with a sub-block decorator, which
+            // need not give the same prefix as the decorator in use at this
+            // nesting level: take the prefix's own length for the layout and
+            // the estimate's only to take its share out of the estimate.
             let prefix = renderer.header_prefix(level);
-            let prefix_size = size_estimate.prefix_size;
-            debug_assert!(prefix.len() == prefix_size);
-            let min_width = size_estimate.min_width;
-            let inner_width = min_width.saturating_sub(prefix_size);
+            let inner_width = size_estimate
+                .min_width
+                .saturating_sub(size_estimate.prefix_size);
             let sub_builder =
-                renderer.new_sub_renderer(renderer.width_minus(prefix_size, inner_width)?)?;
+                renderer.new_sub_renderer(renderer.width_minus(prefix.len(), inner_width)?)?;
             renderer.push(sub_builder);
             pending2(children, move |renderer: &mut TextRenderer<D>, _| {
                 let sub_builder = renderer.pop();
@@ -2235,8 +2238,9 @@ fn do_render_node<T: Write, D: TextDecorator>(
         }
         BlockQuote(children) => {
             let prefix = renderer.quote_prefix();
-            debug_assert!(size_estimate.prefix_size == prefix.len());
-            let inner_width = size_estimate.min_width - prefix.len();
+            let inner_width = size_estimate
+                .min_width
+                .saturating_sub(size_estimate.prefix_size);
             let sub_builder =
                 renderer.new_sub_renderer(renderer.width_minus(prefix.len(), inner_width)?)?;
             renderer.push(sub_builder);
@@ -2261,7 +2265,9 @@ fn do_render_node<T: Write, D: TextDecorator>(
                     Ok(Some(None))
                 }),
                 prefn: Some(Box::new(move |renderer: &mut TextRenderer<D>, _| {
-                    let inner_width = size_estimate.min_width - prefix_len;
+                    let inner_width = size_estimate
+                        .min_width
+                        .saturating_sub(size_estimate.prefix_size);
                     let sub_builder = renderer
                         .new_sub_renderer(renderer.width_minus(prefix_len, inner_width)?)?;
                     renderer.push(sub_builder);
